@@ -148,7 +148,7 @@ theorem C12_timeheap_refines (ops : List TH.Op) :
 /-- The running total is the sum of the counts currently in the heap, in every reachable state
 (this is what the unrepaired `Clear` broke). -/
 theorem C12_timeheap_total_is_heap_sum (ops : List TH.Op) :
-    (TH.final TH.init ops).total = TH.counts (TH.final TH.init ops).heap :=
+    (TH.final TH.init ops).total = TH.counts (TH.final TH.init ops).heap % TH.W :=
   TH.total_final TH.init ops rfl
 
 /-- The statement of the property in closed form, for one fixed window `h` (how the type is used):
@@ -156,14 +156,14 @@ after any history whose queries all use `h`, `AveragePerSecond(h)` reports the s
 exactly those entries that were added since the last `Clear` and are inside the window now. -/
 theorem C12_timeheap_fixed_window (h : Nat) (ops : List TH.Op) (hf : TH.FixedWindow h ops) :
     (TH.step (TH.final TH.init ops) (.avg h)).2 =
-      .total (TH.counts ((TH.addedSince ops).2.filter (TH.inWindow (TH.addedSince ops).1 h))) h := by
+      .total (TH.counts ((TH.addedSince ops).2.filter (TH.inWindow (TH.addedSince ops).1 h)) % TH.W) h := by
   obtain ⟨_, hrel⟩ := TH.run_refines TH.init TH.specInit ops TH.rel_init
   rw [TH.run_fst] at hrel
   obtain ⟨h1, _⟩ := TH.step_refines hrel (.avg h)
   rw [h1]
   obtain ⟨f1, f2⟩ := TH.spec_fixed h ops TH.specInit (0, []) hf rfl rfl
   show TH.Out.total (TH.counts ((TH.specRun TH.specInit ops).1.live.filter
-    (TH.inWindow (TH.specRun TH.specInit ops).1.now h))) h = _
+    (TH.inWindow (TH.specRun TH.specInit ops).1.now h)) % TH.W) h = _
   rw [f2]; rfl
 
 /-- Non-vacuity of `FixedWindow`, and a concrete run: entries age out, `Clear` forgets. -/
@@ -267,7 +267,7 @@ example : ∀ op ∈ [OC.Op.add 1 5 false true, .modify 1 7 true true false fals
 /-- `topics[t] = Σ_c subs[c][t]` in every reachable state, for every subscription limit and every
 history of connect / disconnect / subscribe / unsubscribe (same client ids reconnecting, forced
 drops at the limit included); all stored counts are positive and no map has duplicate keys. -/
-theorem C12_submgr_topic_count_is_sum (limit : Nat) (ops : List SM.Op) :
+theorem C12_submgr_topic_count_is_sum (limit : Int) (ops : List SM.Op) :
     let s := SM.final (SM.init limit) ops
     (∀ t, SM.topicCount s t = SM.sumOver s.subs t) ∧
     (∀ t n, s.topics.get t = some n → 0 < n) ∧
@@ -278,7 +278,7 @@ theorem C12_submgr_topic_count_is_sum (limit : Nat) (ops : List SM.Op) :
   exact ⟨hv.sum, hv.tpos, hv.pos, hv.subsNodup, hv.topicsNodup⟩
 
 /-- Observable form: a topic has subscribers exactly when some client is subscribed to it. -/
-theorem C12_submgr_topic_iff_client (limit : Nat) (ops : List SM.Op) (t : Nat) :
+theorem C12_submgr_topic_iff_client (limit : Int) (ops : List SM.Op) (t : Nat) :
     let s := SM.final (SM.init limit) ops
     (SM.step s (.hasTopic t)).2.ret = some true ↔ ∃ c, 0 < SM.cnt s c t := by
   intro s
@@ -290,7 +290,7 @@ theorem C12_submgr_topic_iff_client (limit : Nat) (ops : List SM.Op) (t : Nat) :
 (connected / disconnected, subscribed / unsubscribed, topic added / removed — the batches of a
 reconnect, a disconnect and a forced drop included) reconstructs exactly the set of connected
 clients, every client's subscription count per topic and the set of topics with subscribers. -/
-theorem C12_submgr_events_mirror (limit : Nat) (ops : List SM.Op) :
+theorem C12_submgr_events_mirror (limit : Int) (ops : List SM.Op) :
     let s := SM.final (SM.init limit) ops
     let r := SM.replay SM.Rep.empty (SM.allEvents (SM.init limit) ops)
     (∀ c, r.conn c = s.subs.has c) ∧ (∀ c t, r.sub c t = SM.cnt s c t) ∧ (∀ t, r.topic t = s.topics.has t) := by
@@ -302,7 +302,7 @@ theorem C12_submgr_events_mirror (limit : Nat) (ops : List SM.Op) :
 client to the limit removes the client with everything it held (and only that), answers false and
 ends the event batch with DropClient, ClientDisconnected; no TopicSubscribed is emitted. -/
 theorem C12_submgr_forced_drop (s : SM.St) (c t : Nat) (m : AMap Nat)
-    (hc : s.subs.get c = some m) (hm : m.get t = none) (hl : s.limit ≠ 0 ∧ s.limit ≤ m.length + 1) :
+    (hc : s.subs.get c = some m) (hm : m.get t = none) (hl : s.limit ≠ 0 ∧ s.limit ≤ (m.length : Int) + 1) :
     (SM.step s (.subscribe c t)).1 = SM.cleaned s c m ∧
     (SM.step s (.subscribe c t)).2.ret = some false ∧
     (SM.step s (.subscribe c t)).2.events = SM.cleanEvents c m s.topics ++ [.drop c, .disconnected c] := by
